@@ -195,11 +195,11 @@ namespace igris
         void erase(iterator first, iterator last)
         {
             size_t sz = last - first;
+            iterator tail = std::move(last, end(), first);
             for (size_t i = 0; i < sz; ++i)
             {
-                igris::destructor(first + i);
+                igris::destructor(tail + i);
             }
-            std::move(last, end(), first);
             m_size -= sz;
         }
 
